@@ -138,6 +138,22 @@ PROPS = {
         "assumptions": ["connections of a burst end one after the other (the harness waits for each context to be dropped), so the drop order is the creation order",
                         "GC timing (1 s) is real time; log flushing is forced with a rotate"],
     },
+    "C13": {
+        "props_module": "Redproxy.Props.C13",
+        "mode": "c13",
+        "needs_plain": True,
+        "rule": "the un-hooked binary built from the current tree, started with 6 generated configurations (timeouts absent / idle 2 udp 5 / idle 0 / idle 3 "
+                "/ udp 4 / idle 86400 udp 1; useSplice on and off): the idle_timeout of a live CONNECT tunnel and of a live reverse-UDP session read "
+                "from /api/live; then real-time scenarios under idle = 2 s, each its own tunnel, all concurrent, splice on and off: silent, burst at "
+                "0.5 s, one byte at 1.4 s, a client-side trickle every second for 4.3 s, an origin-side trickle, (thorough: alternating directions, a "
+                "late origin byte), a silent tunnel under idle = 0, and the half-close scenario (client uploads for 3.2 s, half-closes, origin answers "
+                "1.3 s later); the second at which the tunnel is closed is compared with the model; non-trivial = every case; distinct = case lines",
+        "nontrivial": lambda c, i: True,
+        "trusted_base": ["timeout model Redproxy/Model/Idle.lean tied to main.rs / context.rs / copy.rs by correspondence through the real process; close "
+                         "times are rounded to the second (scenarios keep >= 300 ms distance from tick boundaries)"],
+        "assumptions": ["monotone wall clock; the scheduler runs the 1 s ticker within a few hundred ms"],
+        "timeout": 120,
+    },
     "C08": {
         "props_module": "Redproxy.Props.C08",
         "mode": "c08",
